@@ -55,7 +55,7 @@ def native_disagreement(run, hc, hk, tries=2):
     """Python filter vs compiled generated C++ on scenarios of this configuration; returns (problems, payload) or (None, None)."""
     for t in range(tries):
         shp = shape_for(hc, hk, t)
-        for k_edit in (3.0, None):
+        for k_edit in (3.0 if t % 2 == 0 else 3, None):  # a whole threshold given as an int on every other model
             sc = scenarios.Scenario(*shp, seed=run.seed + 13 * t, share_reading=True)
             run.native_runs += 1
             problems, det = cxxcompare.compare(sc, k_edit=k_edit, seed=run.seed + t)
